@@ -64,6 +64,33 @@ func root(v ssa.Value, seen map[ssa.Value]bool) []ssa.Value {
 	return []ssa.Value{v}
 }
 
+// hasRefs: does a value of this type carry a reference (so that copying it shares memory)?
+func hasRefs(t types.Type, seen map[types.Type]bool) bool {
+	if seen[t] {
+		return false
+	}
+	seen[t] = true
+	switch x := t.Underlying().(type) {
+	case *types.Pointer, *types.Map, *types.Slice, *types.Chan, *types.Signature, *types.Interface:
+		return true
+	case *types.Struct:
+		for i := 0; i < x.NumFields(); i++ {
+			if hasRefs(x.Field(i).Type(), seen) {
+				return true
+			}
+		}
+	case *types.Array:
+		return hasRefs(x.Elem(), seen)
+	case *types.Tuple:
+		for i := 0; i < x.Len(); i++ {
+			if hasRefs(x.At(i).Type(), seen) {
+				return true
+			}
+		}
+	}
+	return false
+}
+
 type gInfo struct {
 	pkg, name, typ string
 	writes         []string // "func: instr" outside init
@@ -152,7 +179,38 @@ func main() {
 		for _, b := range f.Blocks {
 			for _, in := range b.Instrs {
 				switch x := in.(type) {
+				case *ssa.Return:
+					for _, r := range x.Results {
+						if hasRefs(r.Type(), map[types.Type]bool{}) {
+							for _, g := range globalOf(r) {
+								if !isInit {
+									globals[g].escapes = append(globals[g].escapes, "returned (shared) from "+f.String())
+								}
+							}
+						}
+					}
+				case *ssa.Send:
+					if hasRefs(x.X.Type(), map[types.Type]bool{}) {
+						for _, g := range globalOf(x.X) {
+							globals[g].escapes = append(globals[g].escapes, "sent on a channel in "+f.String())
+						}
+					}
+				case *ssa.MakeClosure:
+					for _, bnd := range x.Bindings {
+						for _, g := range globalOf(bnd) {
+							if !isInit {
+								globals[g].escapes = append(globals[g].escapes, "captured by a closure in "+f.String())
+							}
+						}
+					}
 				case *ssa.Store:
+					if hasRefs(x.Val.Type(), map[types.Type]bool{}) {
+						for _, g := range globalOf(x.Val) {
+							if !isInit && len(globalOf(x.Addr)) == 0 {
+								globals[g].escapes = append(globals[g].escapes, "copied (shared) into memory in "+f.String())
+							}
+						}
+					}
 					for _, g := range globalOf(x.Addr) {
 						if !isInit {
 							globals[g].writes = append(globals[g].writes, f.String()+": store")
@@ -162,6 +220,13 @@ func main() {
 						paramStores[f] = append(paramStores[f], "store")
 					}
 				case *ssa.MapUpdate:
+					if hasRefs(x.Value.Type(), map[types.Type]bool{}) {
+						for _, g := range globalOf(x.Value) {
+							if !isInit {
+								globals[g].escapes = append(globals[g].escapes, "copied (shared) into a map in "+f.String())
+							}
+						}
+					}
 					for _, g := range globalOf(x.Map) {
 						if !isInit {
 							globals[g].writes = append(globals[g].writes, f.String()+": map update")
